@@ -252,6 +252,9 @@ func (e *Engine) RunTx(ops []Op, keyPrefix string) *TxResult {
 		}
 		planned = append(planned, op)
 		retNs = append(retNs, n)
+		if p.Cycle {
+			e.C.Count("cascade_deletes_over_a_reference_cycle", 1)
+		}
 		if p.Exp != ExpOK {
 			expectFail = true
 			break // a rejected op ends the transaction
